@@ -53,7 +53,7 @@ func parseOp(nk int, s string) (op, bool) {
 		}
 		return op{kind: opOpen, key: k, ok: s[2] == 'o'}, true
 	}
-	if len(s) == 2 && strings.IndexByte("SDdR", s[0]) >= 0 {
+	if len(s) == 2 && strings.IndexByte("SDdRZP", s[0]) >= 0 {
 		k, ok := digit(s[1])
 		if !ok || k >= nk {
 			return op{}, false
@@ -63,24 +63,39 @@ func parseOp(nk int, s string) (op, bool) {
 	return op{}, false
 }
 
-func parseCase(line string) (nk int, progs [][]op, sched []int, client bool, ok bool) {
+func parseCase(line string) (nk int, progs [][]op, sched []int, mode int, ok bool) {
 	var f []string
 	for _, x := range strings.Split(line, " ") {
 		if x != "" {
 			f = append(f, x)
 		}
 	}
-	if len(f) != 4 || (f[0] != "sched" && f[0] != "writers") || len(f[1]) != 1 {
+	if len(f) != 4 || (f[0] != "sched" && f[0] != "writers" && f[0] != "hosts") || len(f[1]) != 1 {
 		return
 	}
-	client = f[0] == "writers"
-	// a `writers` line has only client operations, a `sched` line none
+	switch f[0] {
+	case "writers":
+		mode = modeWriters
+	case "hosts":
+		mode = modeHosts
+	}
+	// a client line has only its client's operations, a `sched` line none
 	for i := 0; i < len(f[2]); i++ {
 		ch := f[2][i]
-		isClient := ch == 'O' || ch == 'c'
-		okClient := isClient || ch == 'o' || ch == 'f' || ch == ',' || ch == ';' || ch == '-' || (ch >= '0' && ch <= '9')
-		if (client && !okClient) || (!client && isClient) {
-			return
+		sep := ch == ',' || ch == ';' || ch == '-' || (ch >= '0' && ch <= '9')
+		switch mode {
+		case modeWriters:
+			if !(sep || ch == 'O' || ch == 'c' || ch == 'o' || ch == 'f') {
+				return
+			}
+		case modeHosts:
+			if !(sep || ch == 'P' || ch == 'c') {
+				return
+			}
+		default:
+			if ch == 'O' || ch == 'c' || ch == 'P' {
+				return
+			}
 		}
 	}
 	nk, d := digit(f[1][0])
@@ -123,7 +138,7 @@ func parseCase(line string) (nk int, progs [][]op, sched []int, client bool, ok 
 			sched = append(sched, t)
 		}
 	}
-	return nk, progs, sched, client, true
+	return nk, progs, sched, mode, true
 }
 
 func (prop) Run(line string) core.Outcome {
@@ -136,16 +151,17 @@ func (prop) Run(line string) core.Outcome {
 		}
 		return runStress(f)
 	}
-	nk, progs, sched, client, ok := parseCase(line)
+	nk, progs, sched, mode, ok := parseCase(line)
 	if !ok {
 		return core.Outcome{Impl: "bad-op", Tags: []string{"malformed", "trivial"}}
 	}
 	if hangCount.Load() >= hangsBeforeSkipping {
 		return core.Outcome{Impl: "skipped:too-many-hangs", Tags: []string{"skipped-after-hangs"}}
 	}
-	c := newController(nk, progs, client)
+	c := newController(nk, progs, mode)
 	defer c.stop()
 	o := newOracle(nk, len(progs))
+	o.client = mode != modePlain
 	var toks []string
 	absent := func(key int) bool { _, present := c.up.References(c.key(key)); return !present }
 	hung := false
@@ -162,7 +178,7 @@ func (prop) Run(line string) core.Outcome {
 		}
 		obs := c.observe()
 		o.step(t.id, r, obs)
-		if client && r.op.kind == opOpen && r.opDone && o.tainted == "" {
+		if mode == modeWriters && r.op.kind == opOpen && r.opDone && o.tainted == "" {
 			// writerKeys = exactly the keys of the references the config holds, oldest first
 			got := t.logging.VerifWriterKeys()
 			same := len(got) == len(o.held[t.id])
